@@ -38,7 +38,7 @@ REVIEWED = {
         'share_data is the `dimension`-long data part handed out by unpack_proof_mut and input has measurement.len() == input_len elements (checked at the top of shard)',
     '<vdaf::prio3::Prio3<T, P, SEED_SIZE> as vdaf::Aggregator<SEED_SIZE, 16>>::verify_init|call:index|Prio3::<T, P, SEED_SIZE>::derive_query_rands($1, $2, $3, $6)|Range{(Flp::query_rand_len($1.typ) Mul (<impl Iterator for Range<A>>::next(φ) as Some).0), ((1 Add (<impl Iterator for Range<A>>::next(φ) as Some).0) Mul Flp::q':
         'query_rands has query_rand_len() * num_proofs() elements (into_field_vec of exactly that length) and p ranges over 0..num_proofs()',
-    'codec::encode_u16_items|call:copy_from_slice|<Vec<T, A> as IndexMut<I>>::index_mut($1, Range{len($1), (len($1) Add 2)})|<impl u16>::to_be_bytes(Result::<T, E>::map_err(<impl TryFrom<usize> for u16>::try_from(((len($1) Sub len($1)) Sub 2)), closure {closure#0}[])?)':
+    'codec::encode_u16_items|call:copy_from_slice|<Vec<T, A> as IndexMut<I>>::index_mut($1, Range{len($1), (len($1) Add 2)})|<impl u16>::to_be_bytes(Result::<T, E>::map_err(<impl TryFrom<usize> for u16>::try_from(((len($1) Sub len($1)) Sub 2)), _)?)':
         'length-prefix back-patching over a growing Vec: len_offset was recorded before a placeholder of the prefix width was pushed, so bytes.len() >= len_offset + width at the later reads (the reconstructed terms cannot distinguish the two len() reads)',
     'codec::encode_u16_items|call:index_mut|$1|Range{len($1), (len($1) Add 2)}':
         'length-prefix back-patching over a growing Vec: len_offset was recorded before a placeholder of the prefix width was pushed, so bytes.len() >= len_offset + width at the later reads (the reconstructed terms cannot distinguish the two len() reads)',
@@ -46,7 +46,7 @@ REVIEWED = {
         'length-prefix back-patching over a growing Vec: len_offset was recorded before a placeholder of the prefix width was pushed, so bytes.len() >= len_offset + width at the later reads (the reconstructed terms cannot distinguish the two len() reads)',
     'codec::encode_u16_items|overflow:Sub|len($1)|len($1)':
         'length-prefix back-patching over a growing Vec: len_offset was recorded before a placeholder of the prefix width was pushed, so bytes.len() >= len_offset + width at the later reads (the reconstructed terms cannot distinguish the two len() reads)',
-    'codec::encode_u32_items|call:copy_from_slice|<Vec<T, A> as IndexMut<I>>::index_mut($1, Range{len($1), (len($1) Add 4)})|<impl u32>::to_be_bytes(Result::<T, E>::map_err(<impl TryFrom<usize> for u32>::try_from(((len($1) Sub len($1)) Sub 4)), closure {closure#0}[])?)':
+    'codec::encode_u32_items|call:copy_from_slice|<Vec<T, A> as IndexMut<I>>::index_mut($1, Range{len($1), (len($1) Add 4)})|<impl u32>::to_be_bytes(Result::<T, E>::map_err(<impl TryFrom<usize> for u32>::try_from(((len($1) Sub len($1)) Sub 4)), _)?)':
         'length-prefix back-patching over a growing Vec: len_offset was recorded before a placeholder of the prefix width was pushed, so bytes.len() >= len_offset + width at the later reads (the reconstructed terms cannot distinguish the two len() reads)',
     'codec::encode_u32_items|call:index_mut|$1|Range{len($1), (len($1) Add 4)}':
         'length-prefix back-patching over a growing Vec: len_offset was recorded before a placeholder of the prefix width was pushed, so bytes.len() >= len_offset + width at the later reads (the reconstructed terms cannot distinguish the two len() reads)',
